@@ -477,9 +477,11 @@ func (conv *converter) convertRuleExpr(call *ast.CallExpr) {
 		doArgs           *[]ast.Expr
 	)
 
+	var root ast.Expr = call // What the chain of the method calls starts at
 	for {
 		chain, ok := call.Fun.(*ast.SelectorExpr)
 		if !ok {
+			root = call
 			break
 		}
 		switch chain.Sel.Name {
@@ -526,8 +528,16 @@ func (conv *converter) convertRuleExpr(call *ast.CallExpr) {
 		}
 		call, ok = chain.X.(*ast.CallExpr)
 		if !ok {
+			root = chain.X
 			break
 		}
+	}
+
+	// The methods are recognized by their names: make sure that they
+	// are the methods of the matcher and not of some look-alike value,
+	// whose methods can have any number of arguments.
+	if id, ok := astutil.Unparen(root).(*ast.Ident); !ok || id.Name != conv.group.MatcherName {
+		panic(conv.errorf(root, "expected a %s method call, found %s", conv.group.MatcherName, goutil.SprintNode(conv.fset, origCall)))
 	}
 
 	// AST patterns for Match() or regexp patterns for MatchComment().
